@@ -223,6 +223,18 @@ fn run_case(toks: Vec<String>, tx: std::sync::mpsc::Sender<Option<String>>) {
             s.push_str(" ROUNDTRIP-DIFFERS");
           }
           verif_time::advance(ms(gap));
+          // Bounded caches: the order of the snapshot's entries (the hash-map order of the original)
+          // decides the LRU order of the restored policy, and the model does not know it.  A snapshot
+          // is a bag of entries, so reorder the deserialized value by key through its own
+          // Serialize/Deserialize impls (the model's op does the same: Snapshot.v `reorder`).
+          // Unbounded caches take the bincode round trip as it is.
+          let back = if cap > 0 {
+            let mut j = serde_json::to_value(&back).expect("json serialize");
+            j["entries"].as_array_mut().unwrap().sort_by_key(|e| e["key"].as_u64().unwrap());
+            serde_json::from_value::<CacheSnapshot<u64, u64>>(j).expect("json deserialize")
+          } else {
+            back
+          };
           // shards/capacity come from the snapshot; policy factory and hasher as for the original
           match builder(1, cap, 0, rtti).build_from_snapshot(back) {
             Ok(c) => (3, s, Some(c)),
